@@ -1028,7 +1028,9 @@ func (e *recExec) settleOracle(o *Out) {
 						if ci.op == "change" || (ci.op == "U" && ci.ok) || ci.op == "D" {
 							break
 						}
-						if ci.op == "U" && !ci.ok && ci.rev > 0 && ci.rev < r {
+						// (an attempt made for a version the user had already replaced when it ran is not an
+						// attempt of this change: its result is dropped and queues nothing)
+						if ci.op == "U" && !ci.ok && ci.rev > 0 && ci.rev < r && ci.data == obj.Data && !ci.stale {
 							r = ci.rev
 						}
 					}
